@@ -218,3 +218,27 @@ for _nm in ("user_attrs", "system_attrs"):
                # through: the caller holds a fresh dict object
                "fresh(result)"])],
            modifies=["D:*:dict<str,val>", "L:*:list<val>", "G:is_tuple"])
+
+
+# --- best_value / best_params: read off the best trial ------------------------------------------------------------------------
+@R.specfunc()
+def value_of_best(eng, st, self_sv, x):
+    """x is the objective value of a current COMPLETE trial of the study that no COMPLETE trial beats -- or, in the constraint
+    fallback, of a feasible one that no feasible COMPLETE trial beats."""
+    storage = eng.get_field(st, self_sv, "_storage")
+    sid = eng.get_field(st, self_sv, "_study_id")
+    d = eng.list_get(st, eng.get_field(st, self_sv, "_directions"), z3.IntVal(0))
+    t = z3.Int("vb_t")
+    tv = SV(KRef("FrozenTrial"), t)
+    u_all = R.specfuncs["unbeaten"](eng, st, storage, sid, tv, d, SV(KBool, z3.BoolVal(False))).term
+    u_feas = R.specfuncs["unbeaten"](eng, st, storage, sid, tv, d, SV(KBool, z3.BoolVal(True))).term
+    xt = eng.coerce(st, x, KFloat).term
+    return SV(KBool, z3.Exists([t], z3.And(t > 0, _as_trial(storage.term, sid.term, t), eng.get_field(st, tv, "state").term == 1,
+                                           _value(eng, st, tv) == xt, z3.Or(u_all, z3.And(_feasible(eng, st, tv), u_feas)))))
+
+
+R.contracts[(SY, "Study.best_trial")].no_self_inline = True
+R.spec(SY, "Study.best_value", props=["C12"], returns_kind="float",
+       requires=list(R.contracts[(SY, "Study.best_trial")].requires),
+       cases=[case("any", any_outcome=True, ensures_return=["value_of_best(self, result)"])],
+       modifies=["L:*", "D:*", "F:FrozenTrial.*", "G:is_tuple"])
